@@ -8,6 +8,10 @@ from . import vals as V
 from . import e1, db as dbm, refsem, lang, real
 from .vals import Unsupported
 
+# the only diagnostics a catalogue program may legitimately get: limitations of the variable
+# elimination that depend on how assignments and `in` are interleaved (see DESIGN.md, known
+# finding KF-C07-order-dependent-elimination); measured rate 13 of 40000 core programs
+TOLERATED_DIAGNOSTICS = ('circular dependency of', 'Found no way to assign variables')
 MAX_SLOTS = int(os.environ.get('VERIF_MAX_SLOTS', '160'))
 
 
@@ -15,6 +19,21 @@ def ref_concrete(case, pred, rows, strings, K):
   """evaluate the reference on a concrete database (through z3 model evaluation)."""
   D = dbm.SymDB(case.used_tables_schema, K, case.nullable)
   ref = refsem.Ref(case.prog, D.store(), strings, macros=case.macros, depths=case.depths)
+  rel = ref.relation(pred)
+  s = z3.Solver()
+  s.add(*D.constraints)
+  s.add(*D.fix(rows))
+  assert str(s.check()) == 'sat'
+  m = s.model()
+  ok = all(z3.is_true(m.eval(V.as_bool(a), model_completion=True)) for a in ref.assumptions)
+  return rel, V.concretize_rel(m, rel, strings), ok
+
+
+def ref_concrete_full(case, pred, rows, strings, K, range_bound=3):
+  """reference on a concrete database, with the case's depths / order specs."""
+  D = dbm.SymDB(case.used_tables_schema, K, case.nullable)
+  ref = refsem.Ref(case.prog, D.store(), strings, range_bound, macros=case.macros, depths=case.depths,
+                   order_specs=getattr(case, 'order_specs', None))
   rel = ref.relation(pred)
   s = z3.Solver()
   s.add(*D.constraints)
@@ -88,7 +107,7 @@ def validate_case(case, prop_id, out_dir, K=None, timeout_ms=None, range_bound=3
   """-> dict(results=[...per predicate...])"""
   res = []
   K = K or case.K
-  text = case.prog.text()
+  text = getattr(case, 'compile_text', None) or case.prog.text()
   strings = V.Strings(lang.strings_of(case.prog))
   schema = {t: dbm.SCHEMA[t] for t in case.used_tables()} or {'G': dbm.SCHEMA['G']}
   case.used_tables_schema = schema
@@ -126,8 +145,18 @@ def validate_case(case, prop_id, out_dir, K=None, timeout_ms=None, range_bound=3
           r['replay']['property'] = prop_id
         continue
       except real.DIAGNOSTICS as e:
-        r['status'] = 'rejected'
         r['why'] = '%s: %s' % (type(e).__name__, str(e)[:200])
+        if any(t in str(e) for t in TOLERATED_DIAGNOSTICS):
+          r['status'] = 'rejected'
+        else:
+          # catalogue programs are valid by construction (they only address arguments that
+          # exist, are range restricted and syntactically generated from an AST): any other
+          # diagnostic means the compiler refuses a valid program
+          r['status'] = 'violation'
+          r['kind'] = 'valid catalogue program rejected: ' + r['why']
+          r['replay'] = {'property': prop_id, 'program': text, 'pred': pred, 'db': {},
+                         'schema': schema, 'diagnostic': r['why'],
+                         'real_rows': None, 'expected_rows': None}
         continue
       except Exception as e:  # noqa: BLE001
         r['status'] = 'violation'
@@ -202,7 +231,16 @@ def validate_case(case, prop_id, out_dir, K=None, timeout_ms=None, range_bound=3
         hdr, real_rows = side.run_real(schema, rows)
         same_model, a, b = e1.compare_concrete(real_rows, model_sql, modes, ordered=ordered)
         same_ref, a2, b2 = e1.compare_concrete(real_rows, model_ref, modes, ordered=ordered)
-        if not same_model:
+        if not same_model and not same_ref:
+          # the encoding does not describe what SQLite does with this statement, but the replay
+          # stands on its own: the real code returns rows that differ from the reference
+          r['status'] = 'violation'
+          r['kind'] = 'rows (replayed on real SQLite; the SQL model also deviates from SQLite on this statement)'
+          r['replay'] = {'property': prop_id, 'program': text, 'pred': pred, 'db': rows,
+                         'schema': schema, 'statements': side.statements,
+                         'real_rows': a2, 'expected_rows': b2, 'real_header': hdr, 'model_rows': b,
+                         'how': 'bin/check %s --replay <this file>' % prop_id}
+        elif not same_model:
           r['status'] = 'harness_error'
           r['why'] = 'SQL model disagrees with real SQLite on the counterexample'
           r['detail'] = {'db': rows, 'real': a, 'model': b, 'sql': side.sql, 'program': text}
@@ -236,12 +274,12 @@ def validate_case(case, prop_id, out_dir, K=None, timeout_ms=None, range_bound=3
   return {'text': text, 'results': res, 'family': case.family, 'notes': case.notes}
 
 
-def selftest_case(case, rnd, ntrials=3, K=2):
+def selftest_case(case, rnd, ntrials=3, K=2, with_ref=True):
   """Serval-style validation of both evaluators against real SQLite on concrete seeded
   databases.  -> list of problems (empty = fine), number of comparisons made."""
   problems = []
   n = 0
-  text = case.prog.text()
+  text = getattr(case, 'compile_text', None) or case.prog.text()
   strings = V.Strings(lang.strings_of(case.prog))
   schema = {t: dbm.SCHEMA[t] for t in case.used_tables()} or {'G': dbm.SCHEMA['G']}
   case.used_tables_schema = schema
@@ -274,13 +312,33 @@ def selftest_case(case, rnd, ntrials=3, K=2):
       try:
         hdr, real_rows = e1.run_real(side.statements, schema, rows)
       except Exception as e:  # noqa: BLE001
-        problems.append(('sqlite error', pred, rows, repr(e)))
+        # a statement the real engine refuses on a concrete database is a replayed violation
+        problems.append(('violation', pred, {'program': text, 'pred': pred, 'db': rows, 'schema': schema,
+                                             'statements': side.statements, 'sqlite_error': repr(e),
+                                             'real_rows': None, 'expected_rows': None}))
         continue
       same, a, b = e1.compare_concrete(real_rows, model_rows, e1.col_modes(side.rel),
                                        ordered=side.rel.ordered)
       n += 1
       if not same or hdr != side.rel.cols:
-        problems.append(('model != sqlite', pred, rows, a, b, text))
+        # who is wrong: the SQL model or the compiler?  ask the reference on this database
+        verdict = None
+        if with_ref:
+          try:
+            rrel, expected, ok = ref_concrete_full(case, pred, rows, strings, K)
+            if ok:
+              same_ref, a2, b2 = e1.compare_concrete(real_rows, expected, e1.col_modes(rrel),
+                                                     ordered=pred in getattr(case, 'ordered_preds', ()))
+              verdict = same_ref
+          except Exception:  # noqa: BLE001
+            verdict = None
+        if verdict is False:
+          problems.append(('violation', pred, {'program': text, 'pred': pred, 'db': rows, 'schema': schema,
+                                               'statements': side.statements, 'real_rows': a2,
+                                               'expected_rows': b2, 'real_header': hdr, 'model_rows': b,
+                                               'found_by': 'encoder self-test on a seeded concrete database (not a solver verdict)'}))
+        else:
+          problems.append(('model != sqlite', pred, rows, a, b, text))
   return problems, n
 
 
@@ -289,7 +347,7 @@ def validate_contain(case, prop_id, K=None, timeout_ms=None, compaction=True):
   T^(depth+1)(empty) <= result <= T^(cycle*(depth+1))(empty) <= lfp."""
   res = []
   K = K or case.K
-  text = case.prog.text()
+  text = getattr(case, 'compile_text', None) or case.prog.text()
   strings = V.Strings(lang.strings_of(case.prog))
   schema = {t: dbm.SCHEMA[t] for t in case.used_tables()}
   case.used_tables_schema = schema
